@@ -398,6 +398,9 @@ def finding_key(case, impl, judge):
 
 
 def shrink(req):
+    if len(req) > 60000:
+        # the 64 KiB cases are already minimal in kind; shrinking them event by event would take minutes
+        return
     head, _, tail = req.partition(" | ")
     toks = tail.split()
     song = songgen.parse_request_song("x " + tail)
